@@ -27,12 +27,13 @@ PLAN = {
     'C07': {'quick': [('MC_fwd.tla', 'MC_fwd.cfg')], 'thorough': [('MC_fwd.tla', 'MC_fwd.cfg'), ('MC_fwd.tla', 'MC_fwd2.cfg'), ('MC_fwd.tla', 'MC_live_fwd.cfg')]},
     'C08': {'quick': [('MC_fwd.tla', 'MC_fwd.cfg')], 'thorough': [('MC_fwd.tla', 'MC_fwd.cfg'), ('MC_fwd.tla', 'MC_fwd2.cfg')]},
     'C09': {'quick': CORE, 'thorough': [('MC_core.tla', 'MC_core_big.cfg'), ('MC_fwd.tla', 'MC_fwd.cfg'), ('MC_par.tla', 'MC_par.cfg')]},
-    'C10': {'quick': [('MC_core.tla', 'MC_time.cfg'), ('MC_partime.tla', 'MC_partime_s.cfg')],
-            'thorough': [('MC_core.tla', 'MC_time.cfg'), ('MC_core.tla', 'MC_time_big.cfg'), ('MC_partime.tla', 'MC_partime_s.cfg'), ('MC_partime.tla', 'MC_partime.cfg')]},
+    'C10': {'quick': [('MC_core.tla', 'MC_time.cfg'), ('MC_partime.tla', 'MC_partime_s.cfg'), ('MC_core.tla', 'MC_live_time.cfg')],
+            'thorough': [('MC_core.tla', 'MC_time.cfg'), ('MC_core.tla', 'MC_time_big.cfg'), ('MC_partime.tla', 'MC_partime_s.cfg'), ('MC_partime.tla', 'MC_partime.cfg'),
+                         ('MC_core.tla', 'MC_live_time.cfg'), ('MC_partime.tla', 'MC_live_partime.cfg')]},
     'C11': {'quick': [('MC_core.tla', 'MC_err.cfg')], 'thorough': [('MC_core.tla', 'MC_err.cfg')]},
     'C13': {'quick': [('MC_hist.tla', 'MC_hist.cfg')], 'thorough': [('MC_hist.tla', 'MC_hist.cfg'), ('MC_hist.tla', 'MC_hist_big.cfg')]},
     'C14': {'quick': [('MC_hist.tla', 'MC_hist.cfg')], 'thorough': [('MC_hist.tla', 'MC_hist.cfg'), ('MC_hist.tla', 'MC_hist_big.cfg')]},
-    'C16': {'quick': [('MC_core.tla', 'MC_stop_s.cfg')], 'thorough': [('MC_core.tla', 'MC_stop_s.cfg'), ('MC_core.tla', 'MC_stop.cfg')]},
+    'C16': {'quick': [('MC_core.tla', 'MC_stop_s.cfg'), ('MC_core.tla', 'MC_live_stop.cfg')], 'thorough': [('MC_core.tla', 'MC_stop_s.cfg'), ('MC_core.tla', 'MC_stop.cfg'), ('MC_core.tla', 'MC_live_stop.cfg')]},
     'C18': {'quick': [('MC_one.tla', 'MC_expect_s.cfg')], 'thorough': [('MC_one.tla', 'MC_expect.cfg')]},
     'C17': {'quick': [('MC_wal.tla', 'MC_wal.cfg')], 'thorough': [('MC_wal.tla', 'MC_wal.cfg')]},
     'C15': {'quick': [('MC_core.tla', 'MC_idle.cfg')], 'thorough': [('MC_core.tla', 'MC_idle.cfg'), ('MC_core.tla', 'MC_idle_big.cfg')]},
